@@ -278,8 +278,8 @@ func runC02(c *Check) {
 			continue
 		}
 		allowed := EdgeWhere(func(t *Term, pol bool, n *Node) bool {
-			if n.Ctx.Depth != 0 {
-				return false
+			if n.Ctx.Depth > 1 {
+				return false // the loop itself, or the handler it hands the event to
 			}
 			t, pol = normFact(t, pol)
 			s := t.String()
@@ -364,6 +364,7 @@ func runC02(c *Check) {
 	c.Doc("C02-R9", "EO: in the sync loop an event's hash is marked seen only after the sync attempt of the same iteration returned without error (a seen mark is persisted with the cache and makes every re-delivery a duplicate: set before a failed attempt it leaves the block unapplied for good).")
 	ruleSeenOnlyAfterSyncAttempt(c, p, steps)
 	ruleMarksAfterItems(c, p, "C02-R10")
+	ruleSeenCensus(c, p, "C02-R12", steps)
 	ruleHandOffNotUnderDeadline(c, p, "C02-R11")
 }
 
@@ -563,4 +564,84 @@ func ruleHandOffNotUnderDeadline(c *Check, p *Prog, rule string) {
 	if n < 3 {
 		c.Unk(rule, "anchor-count", "", "", fmt.Sprintf("anchor lost: only %d hand-offs to the sync loop found in the scanning loops", n))
 	}
+}
+
+// ruleSeenCensus (C02-R12 / C05-R9): a hash marked seen makes every later delivery of the item a
+// duplicate that the sync loop and the DA handlers drop. Census of every call of the cache's
+// SetSeen in the repository: it sits in the sync loop's event handlers (ordered by C02-R9), in the
+// production step (a sequencer's own block) or in the apply step behind the success edge of
+// Store.SetHeight (the block is committed). A mark set anywhere else — while restoring, while
+// scanning — can cover a block that is stored but not applied (the apply step saves the block
+// before the state and the height): after a crash in that window the node refuses the block for good.
+func ruleSeenCensus(c *Check, p *Prog, rule string, steps []*ssa.Function) {
+	c.Doc(rule, "CS+EO: every call of the seen-mark setter is in the sync loop's event handler (C02-R9), in the production step, or in the apply step behind the success edge of Store.SetHeight; nowhere else (a mark set from what the store holds covers a block that was saved but not applied before a crash: its re-delivery is then dropped for good).")
+	allowed := map[*ssa.Function]string{}
+	for _, s := range steps {
+		allowed[s] = "apply"
+	}
+	for _, s := range productionStep(c, p) {
+		allowed[s] = "produce"
+	}
+	loop := p.MustFunc(loopSync)
+	allowed[loop] = "loop"
+	// the loop's own event handlers: unexported functions called only from the loop
+	for _, f := range p.Funcs {
+		pk := fnPkg(f)
+		if pk == nil || pk.Pkg.Path() != rootPath+"/block" || f.Parent() != nil || allowed[f] != "" {
+			continue
+		}
+		callers := callersOf(p, f)
+		all := len(callers) > 0
+		for _, cl := range callers {
+			if topParent(cl) != loop {
+				all = false
+			}
+		}
+		if all {
+			allowed[f] = "loop"
+		}
+	}
+	n := 0
+	for _, f := range p.Funcs {
+		pk := fnPkg(f)
+		if pk == nil || !strings.HasPrefix(pk.Pkg.Path(), rootPath) || f.Blocks == nil || strings.HasSuffix(pk.Pkg.Path(), "/pkg/cache") {
+			continue
+		}
+		hasMark := false
+		for _, b := range f.Blocks {
+			for _, in := range b.Instrs {
+				if call, ok := in.(*ssa.Call); ok && strings.HasSuffix(genericName(commonName(call.Common())), "Cache[_]).SetSeen") {
+					hasMark = true
+				}
+			}
+		}
+		if !hasMark {
+			continue
+		}
+		top := topParent(f)
+		g := BuildECFG(p, f, ExpandOpts{MaxDepth: 0})
+		c.NoteGraph(g)
+		for _, mk := range g.Select(func(n *Node) bool { return strings.HasSuffix(CallName(n), "Cache[_]).SetSeen") }) {
+			mk := mk
+			n++
+			inst := "SetSeen in " + fnShort(f) + " ⟂ " + trunc(RecvTerm(mk).String(), 30)
+			switch allowed[top] {
+			case "loop":
+				c.OK(rule, inst, fnName(f), p.InstrPos(mk.In), "in the sync loop's event handler (ordered after the sync attempt by C02-R9)", false)
+			case "produce":
+				c.OK(rule, inst, fnName(f), p.InstrPos(mk.In), "in the production step: the sequencer's own block", false)
+			case "apply":
+				hOK := g.Select(ErrNilEdge(func(t *Term) bool { return t.IsCall("pkg/store.Store).SetHeight") }))
+				c.Decide(rule, inst, fnName(f), p.InstrPos(mk.In), "in the apply step, behind the success edge of Store.SetHeight",
+					"the apply step marks a hash seen on a path that has not passed the successful Store.SetHeight of the block: the mark can cover a block that is not committed", g,
+					g.PathAvoiding([]*Node{g.Entry}, func(x *Node) bool { return x == mk }, nodeSet(hOK)))
+			default:
+				c.Bad(rule, inst, fnName(f), p.InstrPos(mk.In), "a hash is marked seen outside the sync loop's handlers, the production step and the apply step: a mark derived from anything but a committed block (e.g. from what the store holds at start-up) also covers a block that was saved but not yet applied when the node crashed — the sync loop and the DA handlers then drop every re-delivery of it and the node never passes that height", nil)
+			}
+		}
+	}
+	if n == 0 {
+		c.Unk(rule, "seen-marks", "", "", "anchor lost: no call of the seen-mark setter found")
+	}
+	c.MinInstances(rule, 4)
 }
